@@ -95,7 +95,9 @@ def calculate_specificity(rule: MerchantRule) -> Tuple[int, int, int, int]:
         contains("UBER") and contains("EATS")     -> (50, 2, 0, 8)
         contains("UBER") and amount > 50          -> (50, 1, 1, 4)
     """
-    expr = rule.match_expr.lower()
+    # Count functions and keywords in the expression structure only: text inside
+    # string literals (e.g. contains("HOLIDAY INN")) is pattern text, not a constraint.
+    expr = re.sub(r'"[^"]*"|\'[^\']*\'', '""', rule.match_expr.lower())
 
     # Count pattern conditions (each pattern function adds specificity)
     pattern_funcs = ['contains(', 'regex(', 'normalized(', 'startswith(', 'fuzzy(', 'anyof(']
